@@ -14,6 +14,7 @@ import (
 	"strings"
 	"time"
 
+	"github.com/smallstep/nosql"
 	"go.step.sm/crypto/jose"
 
 	"github.com/smallstep/certificates/authority/provisioner"
@@ -35,7 +36,7 @@ type world struct {
 	own       [3]*owner
 	serial    int
 	lastFresh string
-	race      *raceDB
+	race      *raceStore
 	// served: the environment is the real server (package acmeserved); pids are its provisioner ids by name
 	served *srv.Served
 	held   string // a nonce minted earlier (before a reload or restart), used by Nonce=held
@@ -64,7 +65,7 @@ func allProvs() []env.ProvSpec {
 
 func newWorld() (*world, error) {
 	w := &world{}
-	e, err := env.New(allProvs(), func(d acme.DB) acme.DB { w.race = &raceDB{DB: d}; return w.race })
+	e, err := env.NewWith(allProvs(), env.Options{WrapNoSQL: func(d nosql.DB) nosql.DB { w.race = &raceStore{DB: d}; return w.race }})
 	if err != nil {
 		return nil, err
 	}
